@@ -1,5 +1,9 @@
 //! Shim `libc`: the OS as seen by injectorpp's `common.rs`, modelled over ghost state.
 //!
+//! Compiled as a module of the extracted crate, which refers to itself as `libc`
+//! (`extern crate self as libc;`): Kani 0.68 silently ignores #[kani::stub] on functions of a
+//! dependency crate, and monitors have to be bound onto these functions.
+//!
 //! Same names and signatures as the functions and constants `common.rs` uses from the real
 //! `libc` crate (linux/x86_64 values). Everything else is ghost state in `verif`, read by the
 //! proof harnesses. This file is part of the *trusted base*: it states what `mmap`, `munmap`,
@@ -34,14 +38,14 @@ pub mod verif {
     /// The only "code" memory of the model: targets and trampolines live here.
     pub static mut MEM: [u8; ARENA] = [0; ARENA];
     /// A second object, numerically far (different CBMC object) from `MEM`.
-    pub static mut FAR: [u8; 32] = [0; 32];
+    pub static mut FAR: [u8; 64] = [0; 64];
 
     pub static mut PAGE_SIZE: usize = 4096;
 
     // ---- mmap behaviour chosen by the harness -------------------------------------------
     pub const MMAP_FAIL: u8 = 0;
     pub const MMAP_ARENA: u8 = 1; // return &MEM[MMAP_OFF[k]]
-    pub const MMAP_FAR: u8 = 2; // return &FAR[0]
+    pub const MMAP_FAR: u8 = 2; // return &FAR[16 * k]
     pub const MMAP_INT: u8 = 3; // return the integer MMAP_ADDR[k] (never dereferenced)
     pub const MAXMAP: usize = 4;
     pub static mut MMAP_MODE: [u8; MAXMAP] = [MMAP_FAIL; MAXMAP];
@@ -81,6 +85,8 @@ pub mod verif {
     pub static mut FLUSH_SNAP: [[u8; SNAP]; MAXFLUSH] = [[0; SNAP]; MAXFLUSH];
     /// value of N_EVENTS when the flush happened (ordering w.r.t. other events)
     pub static mut FLUSH_AT: [usize; MAXFLUSH] = [0; MAXFLUSH];
+    /// record flush content? (only the flush-content obligations of C17 need it; it costs a 24-step loop per flush)
+    pub static mut SNAP_ON: bool = false;
 
     /// order of restore-relevant events: (kind, addr) — kind 1 = mprotect, 2 = munmap, 3 = flush
     pub const MAXEV: usize = 32;
@@ -108,6 +114,9 @@ pub mod verif {
         n
     }
     pub unsafe fn log_event(kind: u8, addr: usize) {
+        // lets a harness observe the state of the crate under verification at the instant of each
+        // OS event (empty function; a monitor is bound onto it with #[kani::stub])
+        crate::verif_rt::event_hook(kind);
         if N_EVENTS < MAXEV {
             EV_KIND[N_EVENTS] = kind;
             EV_ADDR[N_EVENTS] = addr;
@@ -150,7 +159,7 @@ pub mod verif {
             let base = mem_base();
             // snapshot only ranges that lie inside the arena (not in the two-page arena variant,
             // whose obligations do not look at flush content)
-            if cfg!(not(verif_big_arena)) && s >= base && e <= base + ARENA && s <= e {
+            if SNAP_ON && s >= base && e <= base + ARENA && s <= e {
                 let mut i = 0;
                 while i < SNAP {
                     if s + i < e {
@@ -178,7 +187,12 @@ pub unsafe fn sysconf(name: c_int) -> c_long {
 /// Assumed contract of `mmap(hint, len, RWX, MAP_PRIVATE|MAP_ANONYMOUS, -1, 0)`:
 /// either fails (returns MAP_FAILED, nothing changes) or returns the start of a fresh
 /// mapping of `len` bytes at an address of the OS's choosing (the hint need not be honoured).
-pub unsafe fn mmap(
+#[inline(never)]
+pub unsafe fn mmap(addr: *mut c_void, len: size_t, prot: c_int, flags: c_int, fd: c_int, offset: off_t) -> *mut c_void {
+    mmap_impl(addr, len, prot, flags, fd, offset)
+}
+
+pub unsafe fn mmap_impl(
     addr: *mut c_void,
     len: size_t,
     prot: c_int,
@@ -198,7 +212,7 @@ pub unsafe fn mmap(
     let p: *mut c_void = if MMAP_MODE[k] == MMAP_ARENA {
         mem_ptr(MMAP_OFF[k]) as *mut c_void
     } else if MMAP_MODE[k] == MMAP_FAR {
-        far_ptr() as *mut c_void
+        FAR.as_mut_ptr().add(16 * k) as *mut c_void
     } else {
         MMAP_ADDR[k] as *mut c_void
     };
@@ -210,7 +224,12 @@ pub unsafe fn mmap(
 }
 
 /// Assumed contract of `munmap`: legal only on exactly a live mapping `(addr, len)`.
+#[inline(never)]
 pub unsafe fn munmap(addr: *mut c_void, len: size_t) -> c_int {
+    munmap_impl(addr, len)
+}
+
+pub unsafe fn munmap_impl(addr: *mut c_void, len: size_t) -> c_int {
     N_MUNMAP += 1;
     log_event(2, addr as usize);
     let a = addr as usize;
@@ -226,7 +245,12 @@ pub unsafe fn munmap(addr: *mut c_void, len: size_t) -> c_int {
     -1
 }
 
+#[inline(never)]
 pub unsafe fn mprotect(addr: *mut c_void, len: size_t, prot: c_int) -> c_int {
+    mprotect_impl(addr, len, prot)
+}
+
+pub unsafe fn mprotect_impl(addr: *mut c_void, len: size_t, prot: c_int) -> c_int {
     let k = N_MPROTECT;
     log_event(1, addr as usize);
     if MPROTECT_FAIL {
